@@ -639,7 +639,9 @@ class Evaluator:
             elif isinstance(op, ast.IsNot):
                 ok = left is not right
             else:
-                if not (isinstance(left, (int, float)) and isinstance(right, (int, float))):
+                if isinstance(left, (set, frozenset)) and isinstance(right, (set, frozenset)):
+                    pass  # subset / superset tests
+                elif not (isinstance(left, (int, float)) and isinstance(right, (int, float))):
                     raise NotEvaluable(f"ordering comparison on non-numbers: {ast.unparse(n)[:60]}")
                 ok = {ast.Lt: left < right, ast.LtE: left <= right, ast.Gt: left > right, ast.GtE: left >= right}[type(op)]
             if not ok:
